@@ -76,7 +76,7 @@ def handlePy (fn : String) (args : List String) : Option String :=
   | "schnorrsig_verify" => do let (a, b, c) ← runTok tok3 args; pure (ansBool (PySecp.schnorrsigVerify E Hs a b c))
   | "keypair_create" => do let a ← runTok tok1 args; pure (ansBytes (PySecp.keypairCreate E a))
   | "schnorrsig_sign" => do let (a, b, c) ← runTok tok2o args; pure (ansBytes (PySecp.schnorrsigSign E Hs a b c))
-  | "ecdsa_sign_recoverable" => do let (a, b) ← runTok tok2 args; pure (ansBytes (PySecp.ecdsaSignRecoverable E Hs fuel a b))
+  | "ecdsa_sign_recoverable" => do let (a, b) ← runTok tok2 args; pure (ansBytes (PySecp.ecdsaSignRecoverableDirect E Hs fuel a b))
   | "ecdsa_recoverable_signature_serialize_compact" => do
     let a ← runTok tok1 args
     pure (match PySecp.ecdsaRecoverableSignatureSerializeCompact a with
